@@ -6,6 +6,10 @@ import os
 VERIF = os.path.dirname(os.path.dirname(os.path.abspath(__file__)))
 
 CLAIMED = {
+    "C15": dict(level="exploration", design="3/C15",
+                technique="deterministic simulation: seeded picture-addition histories from path/stream sources (seeded stream position, misleading names) across slides, placeholders, poster frames and OLE icons with checkpoint/restart and injected source read faults; SHA1-keyed media-part multiset model + byte/type/size models",
+                text="Seeded search over picture-addition histories (same and different bytes interleaved, path and stream sources, pictures / placeholder fills / movie posters / OLE icons) with saves, restarts and injected read faults; after every step the live package and every saved zip are compared with a SHA1-keyed multiset model (one part per distinct byte string, distinct names), stored bytes with the input, extension/content type with the actual format, and sizes with a DPI model.",
+                note="trusted: Pillow for pixel size and DPI of the input bytes, sim/refpkg.py; sizes to within 1 EMU; boundary DPI values accept both readings of 'implausible'"),
     "C17": dict(level="exploration", design="3/C17",
                 technique="deterministic simulation: seeded endpoint-move, group-add and freeform-build histories with held handles and checkpoint/restart against geometric reference models",
                 text="Seeded search over connector endpoint moves (crossing the other endpoint in either axis), additions of every shape kind into groups nested to depth 4, and freeform builds with negative/fractional/repeated vertices, several contours and non-uniform scales, with saves and restarts in between; each step is checked against a geometric reference model (endpoint tuple, recursive bounding box incl. a:chOff/a:chExt parsed from the serialised part, scaled vertex bounding box and path extents).",
